@@ -221,7 +221,7 @@ package pmm
 //@   trusted
 //@   modifies alloc.allocCount, alloc.lastAllocFrame, handed
 //@   ensures ok: err == nil ==> alloc.allocCount == old(alloc.allocCount) + 1 && f == alloc.lastAllocFrame && handed == upd(old(handed), f, true) && !inKernel(alloc, f) && f < 0x10000000000000 && (old(alloc.allocCount) > 0 ==> f > old(alloc.lastAllocFrame))
-//@   ensures fail: err != nil ==> f == mm.InvalidFrame && alloc.allocCount == old(alloc.allocCount) && alloc.lastAllocFrame == old(alloc.lastAllocFrame) && handed == old(handed)
+//@   ensures fail: err != nil ==> err == errBootAllocOutOfMemory && f == mm.InvalidFrame && alloc.allocCount == old(alloc.allocCount) && alloc.lastAllocFrame == old(alloc.lastAllocFrame) && handed == old(handed)
 
 // reserveEarlyAllocatorFrames replays the boot allocator from its reset state (the ghost set
 // starts empty) and reserves every frame it hands out, in the pool that holds it: afterwards a
@@ -266,7 +266,7 @@ package pmm
 // pmm's visitors may change, plus the in-place type normalisation of entries
 //@ func multiboot.VisitMemRegions~callers(visitor multiboot.MemRegionVisitor)
 //@   trusted
-//@   modifies mem, BootMemAllocator.lastAllocFrame, elems(*kernel.Error), elems(uint64), elems(int), elems(uintptr), BitmapAllocator.totalPages, reflect.SliceHeader.Len, reflect.SliceHeader.Cap, reflect.SliceHeader.Data, framePool.startFrame, framePool.endFrame, framePool.freeCount, framePool.freeBitmap
+//@   modifies mem, like(visitor)
 
 // BootMemAllocator.AllocFrame, the part around the memory-map walk (C02): a hand-out returns
 // the cursor and counts it; otherwise InvalidFrame and the out-of-memory error are returned and
@@ -275,6 +275,33 @@ package pmm
 //@ func (alloc *BootMemAllocator) AllocFrame() (f mm.Frame, e *kernel.Error)
 //@   property C02
 //@   requires alloc != nil
-//@   modifies mem, BootMemAllocator.lastAllocFrame, alloc.allocCount, elems(*kernel.Error), elems(uint64), elems(int), elems(uintptr), BitmapAllocator.totalPages, reflect.SliceHeader.Len, reflect.SliceHeader.Cap, reflect.SliceHeader.Data, framePool.startFrame, framePool.endFrame, framePool.freeCount, framePool.freeBitmap
+//@   modifies mem, alloc.lastAllocFrame, alloc.allocCount
 //@   ensures ok: e == nil ==> f == alloc.lastAllocFrame && alloc.allocCount == old(alloc.allocCount) + 1
 //@   ensures oom: e != nil ==> e == errBootAllocOutOfMemory && f == mm.InvalidFrame && alloc.allocCount == old(alloc.allocCount)
+
+// setupPoolBitmaps as a whole (C01, C03): the storage for the pool table and the bitmaps is
+// reserved once, every page of it is backed by a frame from the boot allocator, mapped
+// Present|RW|NoExecute at consecutive pages from the start of the reservation and zero-filled;
+// the first error - no address space, boot allocator out of memory, mapping failure - is
+// returned at once and nothing further is mapped. The two memory-map passes are seen through
+// pmm's abstraction of VisitMemRegions (their per-entry steps are proved above).
+//@ ghost reqBytes uintptr
+//@ ghost dataAddr uintptr
+//@ func (alloc *BitmapAllocator) setupPoolBitmaps() (err *kernel.Error)
+//@   property C01 C03
+//@   rawstores
+//@   requires alloc != nil && vmm.wfReserve() && vmm.mapCalls < 0x1000000000000
+//@   at call reserveRegionFn 1: ghost reqBytes = requiredBytes
+//@   at after call reserveRegionFn 1: ghost dataAddr = vmm.earlyReserveLastUsed
+//@   modifies reqBytes, dataAddr, handed, mem, vmm.earlyReserveLastUsed, vmm.mapCalls, vmm.mapLogPage, vmm.mapLogFrame, vmm.mapLogFlags, vmm.pageTables, BootMemAllocator.lastAllocFrame, BootMemAllocator.allocCount, alloc.pools, alloc.totalPages, reflect.SliceHeader.Len, reflect.SliceHeader.Cap, reflect.SliceHeader.Data, framePool.startFrame, framePool.endFrame, framePool.freeCount, framePool.freeBitmap
+//@   at return: use vmm.vmmOwnErrs(0)
+//@   ensures rounded: reqBytes & 4095 == 0
+//@   ensures pages: err == nil ==> vmm.mapCalls == old(vmm.mapCalls) + (reqBytes >> 12) && dataAddr & 4095 == 0
+//@   ensures calls: err == nil ==> forall(k, uintptr, k < reqBytes >> 12 ==> vmm.mapLogPage[old(vmm.mapCalls)+k] == mm.Page(dataAddr >> 12) + mm.Page(k) && vmm.mapLogFlags[old(vmm.mapCalls)+k] == vmm.FlagPresent|vmm.FlagRW|vmm.FlagNoExecute && handed[vmm.mapLogFrame[old(vmm.mapCalls)+k]])
+//@   ensures atmost: vmm.mapCalls - old(vmm.mapCalls) <= reqBytes >> 12
+//@   ensures errs: err != nil ==> vmm.vmmError(err) || err == errBootAllocOutOfMemory
+//@   loop 1 (index < requiredPages) invariant a: index <= requiredPages && requiredPages == reqBytes >> 12 && reqBytes & 4095 == 0
+//@   loop 1 invariant b: page == mm.Page(dataAddr >> 12) + mm.Page(index)
+//@   loop 1 invariant c: dataAddr & 4095 == 0
+//@   loop 1 invariant d: vmm.mapCalls == old(vmm.mapCalls) + index && alloc != nil
+//@   loop 1 invariant log: forall(k, uintptr, k < index ==> vmm.mapLogPage[old(vmm.mapCalls)+k] == mm.Page(dataAddr >> 12) + mm.Page(k) && vmm.mapLogFlags[old(vmm.mapCalls)+k] == vmm.FlagPresent|vmm.FlagRW|vmm.FlagNoExecute && handed[vmm.mapLogFrame[old(vmm.mapCalls)+k]])
